@@ -1,5 +1,6 @@
 import HdVerif.Model.Basic
 import HdVerif.Generated.T15a
+import HdVerif.Generated.T15b
 /-! C15: SR documents, evidence collection and references built from a segmentation.
 
 Models `sr/utils.py` (`find_content_items`, `collect_evidence`, `_create_references`), the decision logic of
@@ -113,7 +114,23 @@ structure Acc where
   refG : KeyGroups
   unrefG : KeyGroups
 
-/-- the loop over `evidence` -/
+/-- the loop over `evidence`; its body is the decision translated from the current source (`Gen.evidenceStep`:
+(already seen, referenced) ↦ (0 skip | 1 referenced group | 2 unreferenced group, mark as seen)) -/
+def evdLoopM (refs : List String) : List Evd → Acc → Except ErrKind Acc
+  | [], a => .ok a
+  | e :: es, a =>
+    match Gen.evidenceStep (decide (e.inst ∈ a.seen)) (decide (e.inst ∈ refs)) with
+    | .error x => .error x
+    | .ok (action, mark) =>
+      let seen' := if mark then a.seen ++ [e.inst] else a.seen
+      if action = 1 then
+        evdLoopM refs es { seen := seen', refG := addTo (e.study, e.series) ⟨e.cls, e.inst⟩ a.refG, unrefG := a.unrefG }
+      else if action = 2 then
+        evdLoopM refs es { seen := seen', refG := a.refG, unrefG := addTo (e.study, e.series) ⟨e.cls, e.inst⟩ a.unrefG }
+      else evdLoopM refs es { a with seen := seen' }
+
+/-- the same loop written out by hand (what the proofs reason about; `evdLoopM = .ok ∘ evdLoop` is a lemma that
+holds for the step translated from the current source) -/
 def evdLoop (refs : List String) : List Evd → Acc → Acc
   | [], a => a
   | e :: es, a =>
@@ -124,12 +141,16 @@ def evdLoop (refs : List String) : List Evd → Acc → Acc
       evdLoop refs es { a with seen := a.seen ++ [e.inst], unrefG := addTo (e.study, e.series) ⟨e.cls, e.inst⟩ a.unrefG }
 
 /-- `collect_evidence(evidence, content)` -/
-def collectEvidence (evd : List Evd) (tree : Item) : Except ErrKind (Groups × Groups) := do
-  let refs ← refUids tree
-  let a := evdLoop refs evd ⟨[], [], []⟩
-  if refs.all (fun u => u ∈ a.seen) then
-    .ok (createReferences a.refG [], createReferences a.unrefG [])
-  else .error .value
+def collectEvidence (evd : List Evd) (tree : Item) : Except ErrKind (Groups × Groups) :=
+  match refUids tree with
+  | .error x => .error x
+  | .ok refs =>
+    match evdLoopM refs evd ⟨[], [], []⟩ with
+    | .error x => .error x
+    | .ok a =>
+      match Gen.evidenceGuard (refs.all (fun u => u ∈ a.seen)) with
+      | .error x => .error x
+      | .ok _ => .ok (createReferences a.refG [], createReferences a.unrefG [])
 
 /-- one listed instance with the study and series it is listed under -/
 structure Row where
